@@ -18,11 +18,11 @@ exception class).  Ill-typed arguments must be refused with LenaTypeError by the
 import copy
 import itertools
 import os
-import shutil
 import sys
-import tempfile
 sys.path.insert(0, os.path.dirname(os.path.dirname(os.path.abspath(__file__))))
 from bounded.common import Run, watchdog, Timeout
+
+# no file system access: nothing here reads or writes files (Cache is not part of the vocabulary)
 
 import lena.core
 import lena.flow
@@ -116,6 +116,14 @@ class RunListStub(object):
         return iter([_mk(v, _dc(v)[0] * 2 + 1) for v in flow])
 
 
+class RunRawListStub(object):
+    """run element returning a plain list (no next): legal as the LAST element, the docstring of Sequence.run
+    promises that the flow "exiting from the sequence" is converted to an iterator"""
+
+    def run(self, flow):
+        return [_mk(v, _dc(v)[0] * 3 + 2) for v in flow]
+
+
 class FCStub(object):
     """fill/compute accumulator (not callable, no run): yields the digits-concatenation of the data, then the count"""
 
@@ -155,6 +163,11 @@ def plain_tag1(v):
     return _mk(v, _dc(v)[0] * 10 + 1, {"t1": True})
 
 
+def plain_mod3(v):
+    """callable whose results are often falsy (bare 0)"""
+    return _mk(v, _dc(v)[0] % 3)
+
+
 def _even(v):
     return _dc(v)[0] % 2 == 0
 
@@ -171,6 +184,7 @@ def _times7(v):
 KINDS = [
     ("call",      "call",   lambda: plain_tag1),
     ("callobj",   "call",   lambda: CallObj(2)),
+    ("call-mod3", "call",   lambda: plain_mod3),
     ("runstub",   "run",    lambda: RunStub(3)),
     ("fcstub",    "fc",     lambda: FCStub(4)),
     ("Variable",  "call",   lambda: lena.variables.Variable("dbl", lambda x: x * 2 + 1)),
@@ -188,9 +202,11 @@ KINDS = [
     ("SetContext", "nodata", lambda: lena.meta.SetContext("static", 1)),
     ("runlist",   "run",    lambda: RunListStub()),
     ("run+fc",    "run",    lambda: RunAndFC()),
+    # only ever placed LAST in a list (its run returns a list, which only the end of a Sequence must cope with)
+    ("runrawlist", "run",   lambda: RunRawListStub()),
 ]
-NK = len(KINDS)
-CORE = list(range(16))          # the quantifier's vocabulary (+ stubs); 16.. are extras of the anchored mechanisms
+NK = len(KINDS) - 1             # kinds that may stand anywhere
+RAWLIST = NK
 KNAME = [k[0] for k in KINDS]
 
 
@@ -294,17 +310,15 @@ class _Gen(object):
 
 
 def consume(it):
-    """pull with next() only (the result must be an iterator), snapshot every value when it is yielded"""
-    out = []
-    while True:
-        try:
-            v = next(it)
-        except StopIteration:
-            return out
-        out.append(canon(v))
+    """snapshot every value when it is yielded"""
+    return [canon(v) for v in it]
 
 
-MODES = ("seq-iter", "seq-list", "seq-gen", "src-call", "src-iterable", "src-listcall", "src-nested")
+def is_iterator(x):
+    return hasattr(x, "__next__") and hasattr(x, "__iter__")
+
+
+MODES = ("seq-iter", "seq-list", "seq-gen", "src-call", "src-iterable", "src-iterator", "src-listcall", "src-nested")
 
 
 def real(mode, tree, flow):
@@ -317,16 +331,19 @@ def real(mode, tree, flow):
                 s = Sequence(*build(tree))
                 phase = "run"
                 inp = iter(flow) if mode == "seq-iter" else flow if mode == "seq-list" else (v for v in flow)
-                return ("OK", consume(s.run(inp)))
+                res = s.run(inp)
+                return ("OK", consume(res), is_iterator(res))
             if mode == "src-nested":
                 # Source(Source(first, <first top-level item>), <rest>): another regrouping of the same list
                 first = Source(_Gen(flow), *build(tree[:1]))
                 s = Source(first, *build(tree[1:]))
             else:
-                first = _Gen(flow) if mode == "src-call" else flow if mode == "src-iterable" else (lambda: flow)
+                first = (_Gen(flow) if mode == "src-call" else flow if mode == "src-iterable" else
+                         iter(flow) if mode == "src-iterator" else (lambda: flow))
                 s = Source(first, *build(tree))
             phase = "run"
-            return ("OK", consume(s()))
+            res = s()
+            return ("OK", consume(res), is_iterator(res))
     except Timeout:
         return ("EXC", "Timeout", phase)
     except Exception as e:
@@ -384,6 +401,14 @@ def check_one(R, mode, tree, flow, exp=None):
         exp = reference(prog, copy.deepcopy(flow))
     got = real(mode, tree, flow)
     if agrees(exp, got):
+        if got[0] == "OK" and not got[2]:
+            # docstrings of Sequence.run / flow_to_iter: the flow leaving a sequence has both __iter__ and __next__
+            if R is not None:
+                R.fail("%s/result-not-an-iterator" % fid_for(mode, tree, prog).split("/")[0],
+                       "%s %s on flow %r: the values are right but the returned flow has no __next__" % (mode, tree_text(tree), flow),
+                       {"mode": mode, "tree": tree, "flow": flow_to_json(flow)},
+                       {"fn": "replay_compose", "args": [mode, tree, flow_to_json(flow)]})
+            return True
         return False
     if R is not None:
         fid = "%s/%s" % (fid_for(mode, tree, prog), classify(exp, got))
@@ -583,7 +608,6 @@ def alter_case(tree, with_hook, via_split, flow):
     sequence still computes the composition (also when reached through Split([seq]))"""
     prog = leaves(tree)
     els = [KINDS[k][2]() for k in prog]
-    exp_prog_extra = []
     if with_hook:
         els = els + [_Alt()]
         tree = tree + [-1]
@@ -682,7 +706,7 @@ def body(R):
 
     R.scope("Sequence.run / Source.__call__ vs staged left fold, element lists of length 0..1",
             "all lists of length 0..1 over %d element kinds (%s); all bracketings (unary nestings, inserted empty "
-            "Sequences); fed as iterator, list, generator; as Source tail with callable / iterable / list-returning first "
+            "Sequences); fed as iterator, list, generator; as Source tail with callable / iterable / iterator / list-returning first "
             "element and after a nested Source; flows: all bare/(data,context) mixes of length 0..%d plus lengths 5 and 7"
             % (NK, ", ".join(KNAME), 4 if thorough else 2), True)
     compose_scope(R, [()] + [(k,) for k in range(NK)],
@@ -693,11 +717,17 @@ def body(R):
             "bare and (data,context) values mixed)" % (NK, len(flows2), sorted(set(len(f) for f in flows2))), True)
     compose_scope(R, itertools.product(range(NK), repeat=2), flows2, modes_all, sample=False)
 
+    R.scope("Sequence.run / Source.__call__: last element's run returns a plain list",
+            "all lists of length 0..2 over %d kinds followed by a run element that returns a list; all bracketings; every "
+            "way of feeding; 3 flows; values as the fold, and (docstring of Sequence.run) the result has __next__" % NK, True)
+    compose_scope(R, [p + (RAWLIST,) for n in range(3) for p in itertools.product(range(NK), repeat=n)],
+                  [make_flow(0, 0), make_flow(2, 1), make_flow(5, 10)], modes_light, sample=False)
+
     if thorough:
         R.scope("Sequence.run / Source.__call__ vs staged left fold, element lists of length 3",
-                "all %d^3 triples over the %d kinds of the quantifier's vocabulary; all Schroeder bracketings, wraps, inserted "
-                "empty Sequences; %d flows of lengths 0,1,2,5,7" % (len(CORE), len(CORE), len(flows3)), True)
-        compose_scope(R, itertools.product(CORE, repeat=3), flows3, modes_light, sample=False)
+                "all %d^3 triples over all %d element kinds; all Schroeder bracketings, wraps, inserted "
+                "empty Sequences; %d flows of lengths 0,1,2,5,7" % (NK, NK, len(flows3)), True)
+        compose_scope(R, itertools.product(range(NK), repeat=3), flows3, modes_light, sample=False)
         n4, n5 = 1500, 400
     else:
         n3 = 450
@@ -729,7 +759,7 @@ def body(R):
             "%d kinds of non-elements (%s) at every position of every list of 0..2 valid elements over 6 kinds, bare and "
             "inside a nested Sequence, for Sequence and Source tail; non-callable non-iterable first element of a Source; "
             "adapters.Run(bad)" % (len(BAD), ", ".join(b[0] for b in BAD)), True)
-    goods = [0, 3, 5, 8, 12, 14]
+    goods = [KNAME.index(n) for n in ("call", "fcstub", "Filter", "Count", "Sum", "Split")]
     for n in range(0, 3):
         for good in itertools.product(goods, repeat=n):
             good = list(good)
@@ -754,7 +784,7 @@ def body(R):
             R.fail("Run.__init__/ill-typed-argument/%s" % r[0], "adapters.Run(%s): %s" % (BAD[bad][0], r[1]),
                    {"bad": BAD[bad][0]}, {"fn": "replay_bad", "args": ["Run", [], 0, bad, False]})
     for bad in BAD_FIRST:
-        for good in ([], [0], [0, 12]):
+        for good in ([], [0], [0, KNAME.index("Sum")]):
             R.case(True)
             r = bad_case("Source-first", good, 0, bad, False)
             if r:
@@ -782,7 +812,7 @@ def body(R):
             "Sequences and as a tuple of Sequences: identity and order of the flattened elements, flat input returned "
             "unchanged, Sequence(*flatten(s)) still the composition; alter_sequence with no hook / a no-op hook element, "
             "and through Split([seq], bufsize=None)" % nt, True)
-    fkinds = [0, 3, 5, 8, 12]
+    fkinds = [KNAME.index(n) for n in ("call", "fcstub", "Filter", "Count", "Sum")]
     fl = make_flow(5, 10)
     for n in range(0, nt + 1):
         for prog in itertools.product(fkinds, repeat=n):
